@@ -33,6 +33,7 @@ type c16Input struct {
 	Words  int      `json:"words"`   // buffer length
 	DirPre string   `json:"dir_pre"` // absent, present, older
 	File   string   `json:"file"`
+	TmpDir string   `json:"tmpdir,omitempty"` // "other-fs": the child's TMPDIR is on another file system than the test's directory
 	Buf    []uint64 `json:"-"`
 	Out    []byte   `json:"-"`
 }
@@ -279,6 +280,31 @@ func CrashChildMain(arg string) {
 	}
 }
 
+// c16OtherFS returns a fresh directory on a file system other than the current directory's ("" if there is none).
+func c16OtherFS() string {
+	var here syscall.Stat_t
+	if syscall.Stat(".", &here) != nil {
+		return ""
+	}
+	for _, cand := range []string{"/dev/shm", "/run/lock", "/tmp", "/var/tmp", "/run"} {
+		var st syscall.Stat_t
+		if syscall.Stat(cand, &st) == nil && st.Dev != here.Dev {
+			if d, err := os.MkdirTemp(cand, "vc16-"); err == nil {
+				return d
+			}
+		}
+	}
+	return ""
+}
+
+// c16Env: the environment of the saving child.
+func c16Env(tmpdir string) []string {
+	if tmpdir == "" {
+		return nil // inherit
+	}
+	return append(os.Environ(), "TMPDIR="+tmpdir)
+}
+
 var reStraceLine = regexp.MustCompile(`^(\d+)\s+(\w+)\((.*)$`)
 
 // fsAffecting: the system calls that change the file system (the crash points of the statement).
@@ -291,12 +317,13 @@ type c16Window struct {
 	tid    string
 }
 
-func c16Trace(self, arg string) (*c16Window, error) {
+func c16Trace(self, arg string, env []string) (*c16Window, error) {
 	tf := "strace.out"
 	os.Remove(tf)
 	os.Remove("SENTINEL-BEGIN")
 	os.Remove("SENTINEL-END")
 	cmd := exec.Command("strace", "-f", "-o", tf, "-e", "trace=file,desc", self, "crashchild", arg)
+	cmd.Env = env
 	if out, err := cmd.CombinedOutput(); err != nil {
 		return nil, fmt.Errorf("dry run under strace failed: %v: %s", err, trunc(string(out), 300))
 	}
@@ -345,15 +372,29 @@ func c16Trace(self, arg string) (*c16Window, error) {
 }
 
 func c16StraceUnit(in c16Input) Unit {
-	return Unit{Name: fmt.Sprintf("C16/sigkill/lines=%d/words=%d/dir=%s", in.Lines, in.Words, in.DirPre), Run: func(c *Ctx) {
+	uname := fmt.Sprintf("C16/sigkill/lines=%d/words=%d/dir=%s", in.Lines, in.Words, in.DirPre)
+	if in.TmpDir != "" {
+		uname += "/TMPDIR=" + in.TmpDir
+	}
+	return Unit{Name: uname, Run: func(c *Ctx) {
 		in := in
 		in.fill()
+		var env []string
+		if in.TmpDir == "other-fs" {
+			d := c16OtherFS()
+			if d == "" {
+				c.Cap("no second file system available for TMPDIR")
+				return
+			}
+			defer os.RemoveAll(d)
+			env = c16Env(d)
+		}
 		self, _ := os.Executable()
 		argb, _ := json.Marshal(in)
 		arg := string(argb)
 		// reference
 		in.prepareDir()
-		w, err := c16Trace(self, arg)
+		w, err := c16Trace(self, arg, env)
 		if err != nil {
 			// no ptrace in this environment: the shim units alone decide the property (DESIGN.md section 9);
 			// recorded as a cap, never as an alarm
@@ -368,7 +409,7 @@ func c16StraceUnit(in c16Input) Unit {
 		}
 		// the window must be reproducible
 		in.prepareDir()
-		w2, err := c16Trace(self, arg)
+		w2, err := c16Trace(self, arg, env)
 		if err != nil || len(w2.calls) != len(w.calls) || fmt.Sprint(w2.before) != fmt.Sprint(w.before) {
 			c.R.HarnessErr = fmt.Sprintf("system-call window not reproducible: %d vs %d calls, before %v vs %v (%v)", len(w.calls), len(w2.calls), w.before, w2.before, err)
 			return
@@ -388,6 +429,7 @@ func c16StraceUnit(in c16Input) Unit {
 			os.Remove("SENTINEL-BEGIN")
 			os.Remove("SENTINEL-END")
 			cmd := exec.Command("strace", "-f", "-o", "/dev/null", "-e", "trace="+name, "-e", fmt.Sprintf("inject=%s:signal=KILL:when=%d", name, when), self, "crashchild", arg)
+			cmd.Env = env
 			cmd.Run()
 			c.R.Evals++
 			c.R.States++
@@ -461,6 +503,9 @@ func c16Units(tier string, seed int64) []Unit {
 			}
 		}
 	}
+	// the process's temporary directory on another file system than the test's directory
+	units = append(units, c16StraceUnit(c16Input{Name: "TestCrash", Lines: 3, Words: 5, DirPre: "absent", TmpDir: "other-fs"}))
+	units = append(units, c16StraceUnit(c16Input{Name: "TestCrash", Lines: 40, Words: 0, DirPre: "present", TmpDir: "other-fs"}))
 	if !quick {
 		units = append(units, c16ShimUnit(c16Input{Name: "Crash/é*", Lines: -1, Words: 5000, DirPre: "absent"}))
 	} else {
